@@ -12,4 +12,10 @@ def run(pid: str, tier: str, seed: int, replay: str | None) -> int:
     if pid == 'C19':
         from . import quantity_drv
         return quantity_drv.run_C19(tier, seed)
+    if pid == 'C08':
+        from . import motor_drv
+        return motor_drv.run_C08(tier, seed)
+    if pid == 'C09':
+        from . import gear_drv
+        return gear_drv.run_C09(tier, seed)
     raise Machinery(f'no check registered for {pid}')
